@@ -60,6 +60,8 @@ def strategy(tier):
   call = st.fixed_dictionaries({
       'm': st.integers(0, 20), 'nargs': st.integers(0, 4), 'kw': st.lists(st.sampled_from(['a', 'b', 'x', 'timeout']), max_size=3, unique=True),
       'mode': st.sampled_from(['async_pending', 'async_ok', 'async_fail', 'sync_ok', 'sync_fail']),
+      # which of two clients of the interface makes the call; what kind of error object a failing call carries
+      'client': st.integers(0, 1), 'err': st.sampled_from(['boom', 'boom', 'quiet', 'empty']),
   })
   host = st.text(alphabet='abcdefghijklmnopqrstuvwxyzABC0123456789', min_size=1, max_size=10)
   dotted = st.lists(host, min_size=1, max_size=4).map('.'.join)
@@ -125,6 +127,17 @@ class Boom(Exception):
   pass
 
 
+class QuietBoom(Boom):
+  # an error type that is falsy (an "empty" batch error, say): still an error
+  def __bool__(self):
+    return False
+
+
+class EmptyBoom(Boom):
+  def __len__(self):
+    return 0
+
+
 def _check_proxy(plan):
   base = plan['base']
   own = [list(m) for m in plan['own']]
@@ -151,6 +164,9 @@ def _check_proxy(plan):
     raise Violation(ID, 'proxy-cache', 'CreateServiceClient returned different classes for one interface')
   disp = _Disp()
   proxy = proxy_cls(disp)
+  # a second client of the same interface with its own dispatcher (two clusters of one service)
+  disp2 = _Disp()
+  proxy2 = proxy_cls(disp2)
   if not isinstance(proxy, Iface):
     raise Violation(ID, 'proxy-not-instance', 'proxy is not an instance of the interface')
   for n in names:
@@ -160,13 +176,16 @@ def _check_proxy(plan):
       if getattr(proxy_cls, form) is getattr(Iface, form, None):
         raise Violation(ID, 'proxy-missing-method', '%r is not intercepted' % form)
   nontrivial = False
+  proxy1, disp1 = proxy, disp
   for c in plan['calls']:
     n = names[c['m'] % len(names)]
     args = tuple(object() for _ in range(c['nargs']))
     kwargs = dict((k, object()) for k in c['kw'])
     ar = AsyncResult()
-    value, err = object(), Boom('planned')
+    value, err = object(), {'quiet': QuietBoom, 'empty': EmptyBoom}.get(c.get('err'), Boom)('planned')
     mode = c['mode']
+    proxy, disp, other = (proxy2, disp2, disp1) if c.get('client') else (proxy1, disp1, disp2)
+    other_before = len(other.calls)
     if mode.endswith('_ok'):
       ar.set(value)
     elif mode.endswith('_fail'):
@@ -187,6 +206,8 @@ def _check_proxy(plan):
       except Boom as e:
         if mode != 'sync_fail' or e is not err:
           raise Violation(ID, 'sync-raise', '%s raised %r unexpectedly' % (n, e))
+    if len(other.calls) != other_before:
+      raise Violation(ID, 'wrong-dispatcher', '%s called through one client reached the dispatcher of another client of the same interface' % n)
     if len(disp.calls) != before + 1:
       raise Violation(ID, 'dispatch-count', '%s: dispatcher saw %d calls' % (n, len(disp.calls) - before))
     m, a, k = disp.calls[-1]
